@@ -59,6 +59,11 @@ class InterruptableThread(threading.Thread):
             self.result = self.func(*self.args, **self.kwargs)
         except Exception:
             self.exc_info = sys.exc_info()
+        except BaseException:
+            # e.g. sys.exit() in a student file that is imported in its own thread; the
+            # interruption of a thread that ran out of time is nobody's result, though
+            if not self.abandoned:
+                self.exc_info = sys.exc_info()
 
     @staticmethod
     def _async_raise(thread_id, exception):
@@ -149,12 +154,11 @@ def timeout(duration, func, *args, **kwargs):
     else:
         if target_thread.exc_info[0] is not None:
             ei = target_thread.exc_info
-            # Python 2 had the three-argument raise statement; thanks to PEP
-            # 3109 for showing how to convert that to valid Python 3 statements.
-            e = ei[0](ei[1])
-            e.__traceback__ = ei[2]
+            # The very exception the thread ended with (building a new one from the old one's
+            # class fails for constructors that need more than one argument)
+            e = ei[1]
             e.exc_info = target_thread.exc_info
-            raise e
+            raise e.with_traceback(ei[2])
         return target_thread.result
 
 
